@@ -312,8 +312,8 @@ pub fn pick_buf(r: &mut Rng, record_file: bool) -> Buf {
     match r.below(10) {
         0..=3 => Buf::PerMille(1000),
         4..=6 => Buf::Auto,
-        7 => Buf::Size(262144),
-        8 => Buf::Size(*r.pick(&[393216u32, 524288, 1048576])),
+        7 => Buf::Size(*r.pick(&[262144u32, 0, 4096, 100_000, 200_000, 131_072])),
+        8 => Buf::Size(*r.pick(&[393216u32, 524288, 1048576, 300_000, 10_000])),
         _ => {
             if record_file {
                 Buf::Auto
